@@ -2,7 +2,7 @@ SPEC = {
     'id': 'C35',
     'harness': 'hC35',
     'coq_dir': 'C35',
-    'claimed': False,
+    'claimed': True,
     'theorems': ['C35_terminates', 'C35_no_deadlock', 'C35_second_phase_terminates',
                  'C35_single_goroutine_correct',
                  'C35_delivers_if_servable',
